@@ -1734,6 +1734,133 @@ theorem clean_opSpawn {s : St} (h : CleanX Z s) (inj : Inj) (ok : Bool) (cs : Li
         exact liveH_kindOf hl
     | _ => simp at hcx
 
+/-! ### fork() + uv_loop_fork in the child -/
+
+theorem notown_create_persist {s : St} {site : Site} {kind : Kind} {o o' : Owner} (h : ¬ Own s.l.1 o) (hne : o ≠ o')
+    (hl : o ≠ .leaked) : ¬ Own (s.run [.create site kind o']).l.1 o := by
+  intro hc
+  rcases own_create (by simpa using hc) with h1 | h1 | ⟨h1, _⟩
+  · exact hne h1
+  · exact h h1
+  · exact hl h1
+
+theorem clean_ring_ok {s : St} (h : CleanX Z s) (hlo : s.loopOk = true) (hfree : ¬ Own s.l.1 (.loop .ring)) (inj : Inj) :
+    CleanX Z (loopInitRing s inj) := by
+  unfold loopInitRing
+  split
+  · exact h.tick _ _
+  · exact (h.tick _ _).createOk (by simpa using hfree) (by simpa [okO] using hlo)
+
+theorem notown_ring {s : St} {inj : Inj} {o : Owner} (h : ¬ Own s.l.1 o) (hne : o ≠ .loop .ring) (hl : o ≠ .leaked) :
+    ¬ Own (loopInitRing s inj).l.1 o := by
+  unfold loopInitRing
+  split
+  · simpa using h
+  · exact notown_create_persist (by simpa using h) hne hl
+
+@[simp] theorem ring_hs (s : St) (inj : Inj) : (loopInitRing s inj).hs = s.hs := by
+  unfold loopInitRing; split <;> simp
+
+theorem clean_forkSignal {s : St} (h : CleanX Z s) (hlo : s.loopOk = true) (inj : Inj) : CleanX Z (forkSignal s inj) := by
+  unfold forkSignal
+  dsimp only
+  have h1 : CleanX Z (s.run [.closeOwner (.loop .sig0) false, .closeOwner (.loop .sig1) false]) :=
+    h.harmless (by simp [Prim.harmless])
+  have f0 : ¬ Own (s.run [.closeOwner (.loop .sig0) false, .closeOwner (.loop .sig1) false]).l.1 (.loop .sig0) := by
+    rw [run_cons]
+    exact notown_persist (ps := [.closeOwner (.loop .sig1) false]) (by simp [Prim.harmless]) (by simp)
+      (by simpa using notown_closeOwner s.l.2 (o := .loop .sig0) (g := false) rfl rfl)
+  have f1 : ¬ Own (s.run [.closeOwner (.loop .sig0) false, .closeOwner (.loop .sig1) false]).l.1 (.loop .sig1) := by
+    rw [run_cons]
+    simpa using notown_closeOwner (s.run [.closeOwner (.loop .sig0) false]).l.2 (o := .loop .sig1) (g := false) rfl rfl
+  split
+  · exact (h1.tick _ _).ret _
+  · apply CleanX.ret
+    rw [run_cons]
+    have h2 := (h1.tick inj "pipe2").createOk (site := .pipe2) (kind := .pipe) (o := .loop .sig0) (by simpa using f0)
+      (by simpa [okO] using hlo)
+    exact h2.createOk (notown_create_persist (by simpa using f1) (by simp) (by simp)) (by simpa [okO] using hlo)
+
+theorem clean_forkAsync {s : St} (h : CleanX Z s) (hlo : s.loopOk = true) (inj : Inj) : CleanX Z (forkAsync s inj) := by
+  unfold forkAsync
+  dsimp only
+  have h1 : CleanX Z (s.run [.closeOwner (.loop .async) false]) := h.harmless (by simp [Prim.harmless])
+  have f0 : ¬ Own (s.run [.closeOwner (.loop .async) false]).l.1 (.loop .async) := by
+    simpa using notown_closeOwner s.l.2 (o := .loop .async) (g := false) rfl rfl
+  split
+  · exact (h1.tick _ _).ret _
+  · exact clean_forkSignal ((h1.tick inj "eventfd").createOk (by simpa using f0) (by simpa [okO] using hlo)) (by simpa using hlo) inj
+
+theorem clean_forkIo {s : St} (h : CleanX Z s) (hlo : s.loopOk = true) (inj : Inj) : CleanX Z (forkIo s inj) := by
+  unfold forkIo
+  dsimp only
+  have h1 : CleanX Z (s.run [.closeOwner (.loop .backend) false, .closeOwner (.loop .ring) false, .closeOwner (.loop .inotify) false]) :=
+    h.harmless (by simp [Prim.harmless])
+  have fb : ¬ Own (s.run [.closeOwner (.loop .backend) false, .closeOwner (.loop .ring) false, .closeOwner (.loop .inotify) false]).l.1
+      (.loop .backend) := by
+    rw [run_cons]
+    exact notown_persist (ps := [.closeOwner (.loop .ring) false, .closeOwner (.loop .inotify) false]) (by simp [Prim.harmless]) (by simp)
+      (by simpa using notown_closeOwner s.l.2 (o := .loop .backend) (g := false) rfl rfl)
+  have fr : ¬ Own (s.run [.closeOwner (.loop .backend) false, .closeOwner (.loop .ring) false, .closeOwner (.loop .inotify) false]).l.1
+      (.loop .ring) := by
+    rw [run_cons, run_cons]
+    exact notown_persist (ps := [.closeOwner (.loop .inotify) false]) (by simp [Prim.harmless]) (by simp)
+      (by simpa using notown_closeOwner (s.run [.closeOwner (.loop .backend) false]).l.2 (o := .loop .ring) (g := false) rfl rfl)
+  have fi : ¬ Own (s.run [.closeOwner (.loop .backend) false, .closeOwner (.loop .ring) false, .closeOwner (.loop .inotify) false]).l.1
+      (.loop .inotify) := by
+    rw [run_cons, run_cons]
+    simpa using notown_closeOwner ((s.run [.closeOwner (.loop .backend) false]).run [.closeOwner (.loop .ring) false]).l.2
+      (o := .loop .inotify) (g := false) rfl rfl
+  split
+  · exact (h1.tick _ _).ret _
+  · have h2 := (h1.tick inj "epoll_create1").createOk (site := .epollCreate) (kind := .epoll) (o := .loop .backend)
+      (by simpa using fb) (by simpa [okO] using hlo)
+    have fr2 := notown_create_persist (site := .epollCreate) (kind := .epoll) (o' := .loop .backend)
+      (s := (s.run [.closeOwner (.loop .backend) false, .closeOwner (.loop .ring) false, .closeOwner (.loop .inotify) false]).tick inj "epoll_create1")
+      (by simpa using fr) (by simp) (by simp)
+    have fi2 := notown_create_persist (site := .epollCreate) (kind := .epoll) (o' := .loop .backend)
+      (s := (s.run [.closeOwner (.loop .backend) false, .closeOwner (.loop .ring) false, .closeOwner (.loop .inotify) false]).tick inj "epoll_create1")
+      (by simpa using fi) (by simp) (by simp)
+    have h3 := clean_ring_ok h2 (by simpa using hlo) fr2 inj
+    have fi3 := notown_ring (inj := inj) fi2 (by simp) (by simp)
+    have hlo3 : (loopInitRing (((s.run [.closeOwner (.loop .backend) false, .closeOwner (.loop .ring) false,
+        .closeOwner (.loop .inotify) false]).tick inj "epoll_create1").run [.create .epollCreate .epoll (.loop .backend)]) inj).loopOk = true := by
+      simpa using hlo
+    split
+    · split
+      · exact (h3.tick _ _).ret _
+      · exact clean_forkAsync ((h3.tick inj "inotify_init1").createOk (by simpa using fi3) (by simpa [okO] using hlo3))
+          (by simpa using hlo3) inj
+    · exact clean_forkAsync h3 hlo3 inj
+
+theorem clean_forkLock {s : St} (h : CleanX Z s) (inj : Inj) : CleanX Z (forkLock s inj) ∧ (forkLock s inj).loopOk = s.loopOk := by
+  unfold forkLock
+  split
+  · rename_i hld
+    refine ⟨?_, by simp⟩
+    have h1 : CleanX Z (s.run [.closeOwner (.glob 0) false, .closeOwner (.glob 1) false]) := h.harmless (by simp [Prim.harmless])
+    have f0 : ¬ Own (s.run [.closeOwner (.glob 0) false, .closeOwner (.glob 1) false]).l.1 (.glob 0) := by
+      rw [run_cons]
+      exact notown_persist (ps := [.closeOwner (.glob 1) false]) (by simp [Prim.harmless]) (by simp)
+        (by simpa using notown_closeOwner s.l.2 (o := .glob 0) (g := false) rfl rfl)
+    have f1 : ¬ Own (s.run [.closeOwner (.glob 0) false, .closeOwner (.glob 1) false]).l.1 (.glob 1) := by
+      rw [run_cons]
+      simpa using notown_closeOwner (s.run [.closeOwner (.glob 0) false]).l.2 (o := .glob 1) (g := false) rfl rfl
+    rw [run_cons]
+    have h2 := (h1.tick inj "pipe2").createOk (site := .pipe2) (kind := .pipe) (o := .glob 0) (by simpa using f0)
+      (by simpa [okO] using hld)
+    exact h2.createOk (notown_create_persist (by simpa using f1) (by simp) (by simp)) (by simpa [okO] using hld)
+  · exact ⟨h, rfl⟩
+
+theorem clean_opFork {s : St} (h : CleanX Z s) (inj : Inj) : CleanX Z (opFork s inj) := by
+  unfold opFork
+  dsimp only
+  obtain ⟨a, b⟩ := clean_forkLock h inj
+  split
+  · rename_i hlo
+    exact clean_forkIo a hlo inj
+  · exact a.ret _
+
 /-! ### every operation of the catalogue, every injected failure -/
 
 theorem clean_step {s : St} (h : Clean s) (inj : Inj) (op : Op) : Clean (step s inj op) := by
@@ -1748,6 +1875,7 @@ theorem clean_step {s : St} (h : Clean s) (inj : Inj) (op : Op) : Clean (step s 
   case uvPipe => exact clean_opUvPipe h0 inj
   case uvSocketpair => exact clean_opUvSocketpair h0 inj
   case end_ => exact (h0.harmless (by simp [Prim.harmless])).ret _
+  case fork => exact clean_opFork h0 inj
   case tcpInit af =>
     split
     · exact h0.bad
